@@ -133,12 +133,31 @@ ENTRY = {'coq_dir': 'C13',
                'has finished writing its request (the courier delivers responses only to a requester whose request is out); equivariance of the '
                'event loop under the id renaming is tested (allocator started at usize::MAX-k), not proved - the theorem is about the renaming only. '
                'Timeouts are events that fire when the clock passes their deadline; the request timeout must be positive for the exactly-one '
-               'theorems (with_timeout(0) is accepted by the API and not exercised).',
+               'theorems (with_timeout(0) is accepted by the API and not exercised). LINK ROUND (coq/Link/Ts_C13.v, 9 theorems): the composition '
+               'with the TransportService model is at the level of inputs and outputs (possible because the contract ledger gstep reads only '
+               'stimuli, resolved targets and calls): Model.step is unchanged and keeps its scripted environment, a joint history is one in which '
+               'that script and the service agree on what open_substream returns (`jok`: accepted calls = OOpen outputs, same ids). The scripted '
+               'environment draws a substream id for every attempted open on a known connection (as the service does for ChannelClogged, EOpenFull) '
+               'while the service draws none when try_get_permit fails (ORet 2): histories with such a failing open are not joint histories (the id '
+               'counters diverge). OBSERVATION of the link, to be checked against the code: with two connections per peer an open in flight on the '
+               'primary is forgotten by the service when the primary closes while the secondary lives - no SubstreamOpenFailure, no ConnectionClosed '
+               "- so the pending_outbound entry of the request stays until the peer's last connection closes (C13_service_silent_close_loses_open; "
+               "inside C08's contract `feasible 2`, and consistent with C08_open_answered whose alternative is the close of the CONNECTION).",
  'assumptions': ['request ids come from the shared allocator (send_request/try_send_request), never chosen by the user',
                  'C13_exactly_one_flushed / C13_exactly_one_contract: the environment discharges what it owes - every accepted dial is answered by '
                  "ConnectionEstablished or DialFailure, every accepted open_substream by SubstreamOpened, SubstreamOpenFailure or the peer's "
                  'ConnectionClosed, and every carrier handed to a request future sees a terminal event of its request or the request timeout (> 0) '
-                 'passes',
+                 'passes. LINKED (coq/Link/Ts_C13.v): the part "every accepted open_substream is answered" is no longer an assumption about an '
+                 'abstract environment when the protocol runs on the TransportService model coq/Ts of C08/C09 - C13_ledger_is_service_ledger / '
+                 'C13_opens_discharged_on_service / C13_exactly_one_on_service_model: for every joint history (service events handed to the protocol '
+                 "as its stimuli, the protocol's open_substream calls executed on the service with the same ids) every open the protocol-side ledger "
+                 'holds is in flight at the service or was lost by a silent close; left as assumptions there: nothing in flight at the service at '
+                 'the end (the hypothesis of C08_open_answered; itself a THEOREM from the connection-task contract stated on the trace - every '
+                 'OpenSubstream command a task received is later answered or its connection is reported closed: C13_task_contract_empties_service, '
+                 'C13_exactly_one_on_service_model_contract), nothing lost (`lost_run = []`; a THEOREM under one connection per peer at a time, '
+                 'C13_exactly_one_on_service_model_single; FALSE in general with two connections per peer: C13_service_silent_close_loses_open), '
+                 'every accepted dial answered (the manager, C05_sys2_no_silence with its two finding classes; the service only forwards '
+                 'DialFailure; not linked), the request timeout passes',
                  "HashMap/FuturesUnordered iteration order is not observable (events of one step and dumps are sorted); the order in which tokio's "
                  'select! looks at two simultaneously ready branches is an input of the model',
                  "two-node theorems: the read side of a linked carrier is fed by the other node's bytes only (local read-side stimuli that resolve "
@@ -195,4 +214,5 @@ ENTRY = {'coq_dir': 'C13',
                 ['(tie of enums / mappings / configuration)',
                  ['C13_tables_in_sync', 'C13_alloc_wrap', 'C13_channel_nothing_lost', 'C13_steps_flatten', 'C13_two_node_projection'],
                  'tools/gen_c13_tables.py on every check -> coq/gen/C13Tables.v + harness/src/gen_c13_tables.rs (harness refuses to run on unknown '
-                 'variants); twin run with an event channel of capacity 1; allocator started at usize::MAX-k']]}
+                 'variants); twin run with an event channel of capacity 1; allocator started at usize::MAX-k']],
+ 'coq_deps': ['C04', 'Ts', 'Link']}
